@@ -211,7 +211,9 @@ Inductive event :=
 | ESigchld                                  (* the process receives (possibly coalesced) SIGCHLD *)
 | EReg (sid label : nat)                    (* objects[sid].set_exit_callback(cb_label) *)
 | EWait (sid label : nat) (raise_error : bool)   (* objects[sid].wait_for_exit(raise_error) *)
-| ELoop.                                    (* the IOLoop runs its pending callbacks *)
+| ELoop                                     (* the IOLoop runs its pending callbacks *)
+| EInit                                     (* Subprocess.initialize(): install the SIGCHLD handler *)
+| EUninit.                                  (* Subprocess.uninitialize(): remove it *)
 
 Definition step (w : world) (e : event) : world :=
   match e with
@@ -228,6 +230,8 @@ Definition step (w : world) (e : event) : world :=
   | EReg sid l => register w sid prep_plain (cb_plain l)
   | EWait sid l re => register w sid (prep_fut l) (cb_fut l re)
   | ELoop => run_loop w
+  | EInit => mkW (w_kern w) (w_subs w) (w_waiting w) (w_queue w) true (w_log w)
+  | EUninit => mkW (w_kern w) (w_subs w) (w_waiting w) (w_queue w) false (w_log w)
   end.
 
 Definition run (es : list event) : world := fold_left step es w0.
